@@ -48,12 +48,22 @@ GEOMETRIES = {
 _CLASSES = {}
 
 
-def model_class(geometry, physics):
-    key = (geometry, physics)
+#: constitutive-law variants: the default (Mpfa-based DarcysLaw / FouriersLaw) and the
+#: differentiable Tpfa-type laws of constitutive_laws.AdTpfaFlux mixed in before the model
+LAWS = {
+    "default": (),
+    "darcy_ad": (pp.constitutive_laws.DarcysLawAd,),
+    "fourier_ad": (pp.constitutive_laws.FouriersLawAd,),
+    "both_ad": (pp.constitutive_laws.DarcysLawAd, pp.constitutive_laws.FouriersLawAd),
+}
+
+
+def model_class(geometry, physics, laws="default"):
+    key = (geometry, physics, laws)
     if key not in _CLASSES:
         base = pp.SinglePhaseFlow if physics == "flow" else pp.MassAndEnergyBalance
-        _CLASSES[key] = type(f"C04_{geometry}_{physics}",
-                             (ClosedBoundaries, GEOMETRIES[geometry], base), {})
+        _CLASSES[key] = type(f"C04_{geometry}_{physics}_{laws}",
+                             (ClosedBoundaries, GEOMETRIES[geometry]) + LAWS[laws] + (base,), {})
     return _CLASSES[key]
 
 
@@ -80,7 +90,7 @@ def build_model(case):
     else:
         params["grid_type"] = case["grid_type"]
         params["meshing_arguments"] = {"cell_size": case["cell_size"]}
-    m = model_class(case["geometry"], case["physics"])(params)
+    m = model_class(case["geometry"], case["physics"], case.get("laws", "default"))(params)
     # gmsh writes its files into the working directory
     tmp = os.path.join(core.CACHE, "tmp", "c04")
     os.makedirs(tmp, exist_ok=True)
